@@ -122,9 +122,10 @@ class PDDLFunction:
         :param old_to_new_param_names: the mapping of old parameter names to new parameter names.
         """
         # rename all parameters at once: renaming them one by one collapses maps whose new names
-        # overlap the old ones (e.g. a swap).
+        # overlap the old ones (e.g. a swap). Names that are not renamed (constants, quantified
+        # variables) stay as they are.
         renamed_signature = {
-            old_to_new_param_names[old_param_name]: param_type
+            old_to_new_param_names.get(old_param_name, old_param_name): param_type
             for old_param_name, param_type in self.signature.items()
         }
         self.signature.clear()
